@@ -53,13 +53,13 @@ impl Rig for H1Rig {
     fn runs(&self, tier: Tier) -> u64 {
         match (self.prop, tier) {
             ("C01", Tier::Quick) => 500_000,
-            ("C01", Tier::Thorough) => 10_000_000,
+            ("C01", Tier::Thorough) => 20_000_000,
             ("C05", Tier::Quick) => 1_500,
             ("C05", Tier::Thorough) => 40_000,
             ("C04", Tier::Quick) => 400_000,
-            ("C04", Tier::Thorough) => 8_000_000,
+            ("C04", Tier::Thorough) => 30_000_000,
             (_, Tier::Quick) => 300_000,
-            (_, Tier::Thorough) => 5_000_000,
+            (_, Tier::Thorough) => 30_000_000,
         }
     }
     fn gen(&self, rng: &mut Rng, idx: u64, _tier: Tier) -> H1Scenario {
